@@ -265,9 +265,17 @@ def _s_stream(draw, tier):
         bufsize = draw(st.sampled_from([1, 3, 64, 512, 4096]))
         if draw(st.integers(0, 3)) == 0:
             items = draw(streams.align_to(items, bufsize))
+        textcuts = None
+        if draw(st.integers(0, 3)) == 0:
+            # a line of text inside a frame (or at the start of a valid frame's payload), with receive boundaries
+            # exactly around it: where a segment starts says nothing about what its bytes are
+            t = draw(st.one_of(streams.text_in_frame(), streams.text_payload_frames()))
+            k = draw(st.integers(0, len(items)))
+            items = items[:k] + [t] + items[k:]
+            textcuts = streams.structure_cuts(items)
         n = sum(len(i["b"]) // 2 for i in items)
         extra = {}
-        if draw(st.integers(0, 2)) == 0:
+        if textcuts is None and draw(st.integers(0, 2)) == 0:
             extra = {"enc": draw(st.sampled_from(["none", "gzip", "compress", "deflate"])), "chunk": draw(st.sampled_from([1, 7, 19, 64, 300, 5000])), "term": draw(st.integers(0, 1))}
             n = 3 * n + 64  # cut positions over the encoded stream
         return {
@@ -276,7 +284,7 @@ def _s_stream(draw, tier):
             "script": [],
             "qoe": draw(st.sampled_from([0, 1, 2])),
             "stream": "socket",
-            "cuts": draw(st.sampled_from([streams.boundaries(items), streams.structure_cuts(items), streams.structure_cuts(items)])) if not extra and draw(st.integers(0, 1)) == 0 else (streams.modulus_cuts(n, bufsize) if bufsize > 1 and draw(st.integers(0, 4)) == 0 else draw(streams.partitions(n))),
+            "cuts": textcuts if textcuts is not None else draw(st.sampled_from([streams.boundaries(items), streams.structure_cuts(items), streams.structure_cuts(items)])) if not extra and draw(st.integers(0, 1)) == 0 else (streams.modulus_cuts(n, bufsize) if bufsize > 1 and draw(st.integers(0, 4)) == 0 else draw(streams.partitions(n))),
             "end": draw(st.sampled_from(["close", "close", "dead"])),
             "prewrap": draw(st.integers(0, 3)) == 0,
             "faults": draw(st.lists(st.sampled_from([0, 0, 1, 1, 2, 3]), min_size=0, max_size=8)),
@@ -318,7 +326,7 @@ SUBS = [
         strategy=s_stream,
         examples=(300, 6000),
         rule="see property rule",
-        need={"stream-file": 1, "decoy:zero-length-over-data": 1, "socket-dies": 1, "socket-wrapped-by-caller": 1, "chunked-socket-gzip": 1, "chunked-socket-none": 1, "fault-inside-valid-frame": 1, "empty-read-inside-valid-frame": 1, "damaged": 1, "decoy:reserved-bits": 1, "decoy:lying-length": 1, "decoy:nested-ubx": 1, "decoy:jumbo-frame": 1, "decoy:split-behind-false-syncs": 1, "decoy:header-junk-rest": 1, "decoy:lying-length-topped-up": 1, "delivered": 10, "socket-timeout-or-error-mid-stream": 1},
+        need={"stream-file": 1, "decoy:zero-length-over-data": 1, "socket-dies": 1, "socket-wrapped-by-caller": 1, "chunked-socket-gzip": 1, "chunked-socket-none": 1, "fault-inside-valid-frame": 1, "empty-read-inside-valid-frame": 1, "damaged": 1, "decoy:reserved-bits": 1, "decoy:lying-length": 1, "decoy:nested-ubx": 1, "decoy:jumbo-frame": 1, "decoy:split-behind-false-syncs": 1, "decoy:header-junk-rest": 1, "decoy:lying-length-topped-up": 1, "decoy:text-inside-frame": 20, "decoy:ubx-extent-splits-frame": 20, "delivered": 10, "socket-timeout-or-error-mid-stream": 1},
         sample=_sample,
     ),
     __import__("pv.fuzz.campaign", fromlist=["make"]).make("C01", ("C01",)),
